@@ -98,7 +98,7 @@ def gen_case(rng, idx):
     so = G.SchemaOpts(keystrval=True, nodefault=True)
     decls = G.gen_schema(rng, so)
     comments = rng.random() < 0.3
-    toks = G.gen_text(rng, decls) if rng.random() < 0.8 else []
+    toks = G.gen_text(rng, decls, to={'oddkeys': True}) if rng.random() < 0.8 else []
     text = G.render(toks, rng, 'mixed' if rng.random() < 0.5 else 'plain')
     ops = gen_ops(rng, decls, comments)
     return {'decls': [d.to_json() for d in decls], 'comments': comments, 'text': text, 'ops': ops}
